@@ -142,6 +142,7 @@ static int handle_core(char **f, int nf) {
 #include "u_block.h"
 #include "u_snappy.h"
 #include "u_iterstack.h"
+#include "u_table.h"
 
 static void handle(char *line) {
   static char *f[MAXF]; int nf = split_fields(line, f, MAXF);
@@ -151,6 +152,7 @@ static void handle(char *line) {
   if (handle_block(f, nf)) return;
   if (handle_snappy(f, nf)) return;
   if (handle_iterstack(f, nf)) return;
+  if (handle_table(f, nf)) return;
   printf("bad-op");
 }
 
